@@ -39,6 +39,7 @@
 #include <hgraph/lib/std/std_operators.h>
 #include <hgraph/lib/std/operators/collection.h>
 #include <hgraph/runtime/runtime.h>
+#include <hgraph/types/context_wiring.h>
 #include <hgraph/types/graph_wiring.h>
 #include <hgraph/types/static_node.h>
 #include <hgraph/types/subgraph_wiring.h>
@@ -186,7 +187,8 @@ namespace
         char              timer = '0';   // '0' none, 'e' armed at first evaluation, 's' armed in start
         std::int64_t      t_off = 0, t_per = 1;
         std::vector<Rule> rules;
-        int               chans = 0;
+        int               chans = 0;    // history columns (input channels of the outer writers)
+        int               bch   = 0;    // input channels of the body (cs: two body inputs read the one column)
     };
     Def                                                g_def;
     std::vector<std::array<std::optional<Int>, 3>>     g_hist;   // per cycle, per channel
@@ -466,6 +468,103 @@ namespace
         }
     };
 
+    // ------------------------------------------------------------------ sub-graphs that CAPTURE outer ports
+    // The compose body references ports of the OUTER wiring (closure capture, or context::get) instead of declared
+    // arguments; Wiring::finish_subgraph turns every distinct captured port into an extra boundary argument
+    // (graph_wiring.cpp OuterCaptureCollector::index_for / Wiring::capture_outer_source).
+    const Port<L> *g_cap[2]  = {nullptr, nullptr};   // the outer ports the body captures (body inputs after the declared ones)
+    bool           g_cap_ctx = false;                // capture through context::scope<"c0"/"c1"> / context::get
+
+    Port<L> cap(Wiring &w, int i)
+    {
+        if (g_cap_ctx) { return context::get<L>(w, i == 0 ? "c0" : "c1"); }
+        return *g_cap[i];
+    }
+
+    template <typename R, typename B, typename P0, typename... P>
+    Port<R> wire_styled(Wiring &w, std::int64_t st, const P0 &p0, const P &...ps)
+    {
+        if (st == ST_PROJ)
+        {
+            auto whole = wire<typename B::proj>(w, p0, ps...);
+            return Port<R>{w, subgraph_wiring_detail::tsb_field_ref(whole.erased(), 1, schema_descriptor<R>::ts_meta())};
+        }
+        if (st == ST_SINK) { wire<typename NullSink::template For<L>>(w, p0); }
+        return wire<typename B::node>(w, p0, ps...);
+    }
+
+    // no declared argument: the body's two inputs are the captured ports
+    template <typename R> struct GC0
+    {
+        static constexpr auto name = "nestshape_gc0";
+        static Port<R>        compose(Wiring &w, Scalar<"style", Int> style)
+        {
+            auto c0 = cap(w, 0);
+            auto c1 = cap(w, 1);
+            if (style.value() == ST_PASS)
+            {
+                // the result IS a captured port (captured pass-through output); both captures also feed a sink.
+                // (Without a consumer inside the sub-graph the returned capture is not collected before the boundary
+                // ordinals are frozen and finish_subgraph throws "discovered an outer capture after boundary ordinals
+                // were finalized" - nested only; the inlined wiring of the same body is fine.)
+                if constexpr (std::is_same_v<R, L>)
+                {
+                    wire<typename NullSink::template For<L>>(w, c0);
+                    wire<typename NullSink::template For<L>>(w, c1);
+                    return c1;
+                }
+                else { throw std::logic_error("pass needs matching shapes"); }
+            }
+            return wire_styled<R, BodyOf<R, L, L>>(w, style.value(), c0, c1);
+        }
+    };
+    // one declared scalar argument, then the two captured ports
+    template <typename R> struct GC1
+    {
+        static constexpr auto name = "nestshape_gc1";
+        static Port<R>        compose(Wiring &w, Port<L> a0, Scalar<"style", Int> style)
+        {
+            return wire_styled<R, BodyOf<R, L, L, L>>(w, style.value(), a0, cap(w, 0), cap(w, 1));
+        }
+    };
+    template <typename R> struct DeepC0
+    {
+        static constexpr auto name = "nestshape_deepc0";
+        static Port<R>        compose(Wiring &w, Scalar<"style", Int> style, Scalar<"depth", Int> depth)
+        {
+            if (depth.value() <= 0) { return wire<GC0<R>>(w, Int{style.value()}); }
+            return nested_<DeepC0<R>>(w, Int{style.value()}, Int{depth.value() - 1});
+        }
+    };
+    template <typename R> struct DeepC1
+    {
+        static constexpr auto name = "nestshape_deepc1";
+        static Port<R>        compose(Wiring &w, Port<L> a0, Scalar<"style", Int> style, Scalar<"depth", Int> depth)
+        {
+            if (depth.value() <= 0) { return wire<GC1<R>>(w, a0, Int{style.value()}); }
+            return nested_<DeepC1<R>>(w, a0, Int{style.value()}, Int{depth.value() - 1});
+        }
+    };
+    // wrapper: holds a sink on the first captured port (the wrapper captures it too) and the nested sub-graph
+    template <typename R> struct WrapC0
+    {
+        static constexpr auto name = "nestshape_wrapc0";
+        static Port<R>        compose(Wiring &w, Scalar<"style", Int> style)
+        {
+            wire<typename NullSink::template For<L>>(w, cap(w, 0));
+            return nested_<GC0<R>>(w, Int{style.value()});
+        }
+    };
+    template <typename R> struct WrapC1
+    {
+        static constexpr auto name = "nestshape_wrapc1";
+        static Port<R>        compose(Wiring &w, Port<L> a0, Scalar<"style", Int> style)
+        {
+            wire<typename NullSink::template For<L>>(w, a0);
+            return nested_<GC1<R>>(w, a0, Int{style.value()});
+        }
+    };
+
     // ------------------------------------------------------------------ harness nodes
     std::map<std::int64_t, std::pair<std::string, std::string>> g_rec;     // time -> (delta, value)
     std::set<std::int64_t>                                      g_cycles;
@@ -483,18 +582,20 @@ namespace
     template <typename A> struct Writer
     {
         static constexpr auto name = "nestshape_writer";
-        static void           start(NodeScheduler sched, Scalar<"base", Int> base)
+        static void           start(NodeScheduler sched, Scalar<"base", Int> base, Scalar<"n", Int> n)
         {
-            const std::size_t i = next_write(0, static_cast<int>(base.value()), Chan<A>::n);
+            const std::size_t i = next_write(0, static_cast<int>(base.value()), static_cast<int>(n.value()));
             if (i < g_hist.size()) { sched.schedule(dt(k_start + static_cast<std::int64_t>(i))); }
         }
-        static void eval(NodeScheduler sched, Scalar<"base", Int> base, Out<A> out)
+        // writes the first `n` leaves of its output from the history columns [base, base + n)
+        static void eval(NodeScheduler sched, Scalar<"base", Int> base, Scalar<"n", Int> n, Out<A> out)
         {
             const int  b = static_cast<int>(base.value());
+            const int  cols = static_cast<int>(n.value());
             const auto i = static_cast<std::size_t>(us(sched.now()) - k_start);
             if (i < g_hist.size())
             {
-                for (int j = 0; j < Chan<A>::n; ++j)
+                for (int j = 0; j < cols; ++j)
                 {
                     const auto &v = g_hist[i][static_cast<std::size_t>(b + j)];
                     if (!v.has_value()) { continue; }
@@ -502,7 +603,7 @@ namespace
                     else { Shape<A>::set(out, j, *v); }
                 }
             }
-            const std::size_t k = next_write(i + 1, b, Chan<A>::n);
+            const std::size_t k = next_write(i + 1, b, cols);
             if (k < g_hist.size()) { sched.schedule(dt(k_start + static_cast<std::int64_t>(k))); }
         }
     };
@@ -541,6 +642,18 @@ namespace
 
     enum Mode { M_INL, M_N1, M_N2, M_N3, M_N4, M_NW };
 
+    void execute(Wiring &&w)
+    {
+        GraphBuilder         gb = std::move(w).finish();
+        Obs                  obs;
+        GraphExecutorBuilder eb;
+        const std::int64_t   end = k_start + static_cast<std::int64_t>(g_hist.size());
+        eb.graph_builder(std::move(gb)).mode(GraphExecutorMode::Simulation).start_time(dt(k_start)).end_time(dt(end));
+        eb.add_lifecycle_observer(&obs);
+        GraphExecutorValue executor = eb.make_executor();
+        executor.view().run();
+    }
+
     template <typename R, typename A0, typename... As> struct Runner
     {
         template <std::size_t... I>
@@ -558,7 +671,7 @@ namespace
             Wiring w{WiringKind::TopLevel, WiringOptions{}};
             int    base = 0;
             auto   mk   = [&]<typename A>(std::type_identity<A>) {
-                auto p = wire<Writer<A>>(w, Int{base}).template as<A>();
+                auto p = wire<Writer<A>>(w, Int{base}, Int{Chan<A>::n}).template as<A>();
                 base += Chan<A>::n;
                 return p;
             };
@@ -566,23 +679,104 @@ namespace
             std::tuple<Port<As>...>  rest{mk(std::type_identity<As>{})...};
             Port<R> out = attach(w, mode, style, a0, rest, std::index_sequence_for<As...>{});
             wire<Recorder<R>>(w, out);
-            GraphBuilder         gb = std::move(w).finish();
-            Obs                  obs;
-            GraphExecutorBuilder eb;
-            const std::int64_t   end = k_start + static_cast<std::int64_t>(g_hist.size());
-            eb.graph_builder(std::move(gb)).mode(GraphExecutorMode::Simulation).start_time(dt(k_start)).end_time(dt(end));
-            eb.add_lifecycle_observer(&obs);
-            GraphExecutorValue executor = eb.make_executor();
-            executor.view().run();
+            execute(std::move(w));
+        }
+    };
+
+    // captured outer ports.  kind (the `args` token of the case):
+    //   cf  two different fields of ONE outer TSB-producing node (f0 then f1)      cr  the same, captured in the order f1, f0
+    //   cl  two elements of ONE outer TSL-producing node                           cs  the same field twice (control)
+    //   cn  one field each of TWO outer nodes (control)                            xf  as cf, through context::scope / get
+    //   sc  one declared scalar argument, then the two fields of one outer TSB node (RunnerC1)
+    Port<L> field_of(Wiring &w, const Port<R_b2> &q, std::size_t i)
+    {
+        return Port<L>{w, subgraph_wiring_detail::tsb_field_ref(q.erased(), i, schema_descriptor<L>::ts_meta())};
+    }
+    template <typename R> struct RunnerC0
+    {
+        static void run(const std::string &kind, Mode mode, Int style)
+        {
+            Wiring  w{WiringKind::TopLevel, WiringOptions{}};
+            Port<L> c0, c1;
+            if (kind == "cl")
+            {
+                auto q = wire<Writer<R_l2>>(w, Int{0}, Int{2}).template as<R_l2>();
+                c0     = Port<L>{w, subgraph_wiring_detail::tsl_element_ref(q.erased(), 0, schema_descriptor<L>::ts_meta())};
+                c1     = Port<L>{w, subgraph_wiring_detail::tsl_element_ref(q.erased(), 1, schema_descriptor<L>::ts_meta())};
+            }
+            else if (kind == "cn")
+            {
+                auto q1 = wire<Writer<R_b2>>(w, Int{0}, Int{1}).template as<R_b2>();
+                auto q2 = wire<Writer<R_b2>>(w, Int{1}, Int{1}).template as<R_b2>();
+                c0      = field_of(w, q1, 0);
+                c1      = field_of(w, q2, 0);
+            }
+            else if (kind == "cs")
+            {
+                auto q = wire<Writer<R_b2>>(w, Int{0}, Int{1}).template as<R_b2>();
+                c0     = field_of(w, q, 0);
+                c1     = field_of(w, q, 0);
+            }
+            else
+            {
+                auto q = wire<Writer<R_b2>>(w, Int{0}, Int{2}).template as<R_b2>();
+                c0     = field_of(w, q, kind == "cr" ? 1 : 0);
+                c1     = field_of(w, q, kind == "cr" ? 0 : 1);
+            }
+            g_cap[0]  = &c0;
+            g_cap[1]  = &c1;
+            g_cap_ctx = kind == "xf";
+            {
+                std::optional<context::scope<"c0">> s0;
+                std::optional<context::scope<"c1">> s1;
+                if (g_cap_ctx) { s0.emplace(w, c0); s1.emplace(w, c1); }
+                Port<R> out = mode == M_INL  ? wire<GC0<R>>(w, style)
+                              : mode == M_NW ? nested_<WrapC0<R>>(w, style)
+                                             : wire<DeepC0<R>>(w, style, Int{static_cast<std::int64_t>(mode)});
+                wire<Recorder<R>>(w, out);
+                s1.reset();
+                s0.reset();
+            }
+            execute(std::move(w));
+        }
+    };
+    template <typename R> struct RunnerC1
+    {
+        static void run(const std::string &, Mode mode, Int style)
+        {
+            Wiring  w{WiringKind::TopLevel, WiringOptions{}};
+            auto    a0 = wire<Writer<L>>(w, Int{0}, Int{1}).template as<L>();
+            auto    q  = wire<Writer<R_b2>>(w, Int{1}, Int{2}).template as<R_b2>();
+            Port<L> c0 = field_of(w, q, 0), c1 = field_of(w, q, 1);
+            g_cap[0]   = &c0;
+            g_cap[1]   = &c1;
+            g_cap_ctx  = false;
+            Port<R> out = mode == M_INL  ? wire<GC1<R>>(w, a0, style)
+                          : mode == M_NW ? nested_<WrapC1<R>>(w, a0, style)
+                                         : wire<DeepC1<R>>(w, a0, style, Int{static_cast<std::int64_t>(mode)});
+            wire<Recorder<R>>(w, out);
+            execute(std::move(w));
         }
     };
 
     // the vocabulary of (result, arguments) pairs (kept small: every pair instantiates the wiring templates)
     const std::set<std::string> k_pairs{"ts:s1", "ts:ab", "b2:s2", "b2:ab", "b2:bs", "b3:s3", "b3:s1", "b4:s2", "b4:al", "l2:s1", "l2:al",
-                                        "l3:s2", "l3:bs", "l4:s1", "l4:s3", "bl:s2", "bl:ab", "lb:s2", "lb:al"};
+                                        "l3:s2", "l3:bs", "l4:s1", "l4:s3", "bl:s2", "bl:ab", "lb:s2", "lb:al",
+                                        // captured outer ports (args = capture kind)
+                                        "ts:cf", "ts:cr", "ts:cl", "ts:cs", "ts:cn", "ts:xf", "b2:cf", "b2:cr", "b2:cl", "b2:cs", "b2:cn", "b2:xf",
+                                        "l3:cf", "l3:cr", "l3:cl", "l3:cs", "l3:cn", "l3:xf", "b3:sc"};
     bool run_def(Mode mode, Int style)
     {
         const std::string p = g_def.res + ":" + g_def.args;
+        if (g_def.args[0] == 'c' || g_def.args[0] == 'x')
+        {
+            if (g_def.res == "ts") { RunnerC0<R_ts>::run(g_def.args, mode, style); }
+            else if (g_def.res == "b2") { RunnerC0<R_b2>::run(g_def.args, mode, style); }
+            else if (g_def.res == "l3") { RunnerC0<R_l3>::run(g_def.args, mode, style); }
+            else { return false; }
+            return true;
+        }
+        if (p == "b3:sc") { RunnerC1<R_b3>::run(g_def.args, mode, style); return true; }
         if (p == "ts:s1") { Runner<R_ts, L>::run(mode, style); }
         else if (p == "ts:ab") { Runner<R_ts, R_b2>::run(mode, style); }
         else if (p == "b2:s2") { Runner<R_b2, L, L>::run(mode, style); }
@@ -620,7 +814,8 @@ namespace
     }
     int chans_of(const std::string &a)
     {
-        static const std::map<std::string, int> m{{"s1", 1}, {"s2", 2}, {"s3", 3}, {"ab", 2}, {"al", 2}, {"bs", 3}};
+        static const std::map<std::string, int> m{{"s1", 1}, {"s2", 2}, {"s3", 3}, {"ab", 2}, {"al", 2}, {"bs", 3}, {"cf", 2}, {"cr", 2},
+                                                  {"cl", 2}, {"cs", 1}, {"cn", 2}, {"xf", 2}, {"sc", 3}};
         auto it = m.find(a);
         return it == m.end() ? 0 : it->second;
     }
@@ -672,14 +867,17 @@ namespace
         if (nl == 0 || d.chans == 0 || !k_pairs.count(d.res + ":" + d.args)) { return false; }
         static const std::set<std::string> styles{"node", "sink", "proj", "pass", "comp"};
         if (!styles.count(d.style)) { return false; }
-        if (d.style == "pass" && !((d.res == "ts" && d.args[0] == 's') || (d.res == "b2" && (d.args == "ab" || d.args == "bs")) || (d.res == "l2" && d.args == "al"))) { return false; }
+        d.bch = d.args == "cs" ? 2 : d.chans;
+        const bool captured = d.args[0] == 'c' || d.args[0] == 'x';
+        if ((captured || d.args == "sc") && d.style == "comp") { return false; }
+        if (d.style == "pass" && !((d.res == "ts" && (d.args[0] == 's' || captured)) || (d.res == "b2" && (d.args == "ab" || d.args == "bs")) || (d.res == "l2" && d.args == "al"))) { return false; }
         if (d.style == "comp" && !(d.res == "b2" || d.res == "b3" || d.res == "b4" || d.res == "l2" || d.res == "l3" || d.res == "l4")) { return false; }
         if (!parse_timer(ws[4], d)) { return false; }
         if (static_cast<int>(ws.size()) != 5 + nl) { return false; }
         for (int i = 0; i < nl; ++i)
         {
             Rule r;
-            if (!parse_rule(ws[static_cast<std::size_t>(5 + i)], d.chans, r)) { return false; }
+            if (!parse_rule(ws[static_cast<std::size_t>(5 + i)], d.bch, r)) { return false; }
             d.rules.push_back(r);
         }
         return true;
